@@ -111,7 +111,7 @@ class PathEvents:
         """token of the pointer variable an atomic object is reached through (l:n->owner -> token of l:n)"""
         if not objpath:
             return None
-        m = re.match(r"^((?:l|p):[A-Za-z_0-9]+)(->|\.)", objpath)
+        m = re.match(r"^((?:l|p):[A-Za-z_0-9$]+)(->|\.)", objpath)
         if m:
             return self.tf.get(m.group(1))
         return None
@@ -150,3 +150,22 @@ def insertion_body(f):
                 if path(f, f.s(a)) == var and i < len(g.params):
                     return g, "p:" + g.params[i]["name"], mk, f.pos_of(st)
     return f, var, mk, None
+
+
+MUTATOR_NAMES = ("push_front", "emplace_front", "push_back", "emplace_back", "erase")
+
+
+def forwards_to_sibling(fb, f):
+    """a public mutator whose whole body hands its argument on to a sibling public mutator of the same list
+    (`push_front(T v) { emplace_front(std::move(v)); }`): the sibling is the one that is judged.  Returns the sibling."""
+    if any(True for _ in atomic_ops(f)):
+        return None
+    sib = []
+    for st in f.stmts.values():
+        if st["k"] == "CXXMemberCallExpr" and path(f, f.s(st.get("obj"))) == "this":
+            g = fb.callee_fn(f, st)
+            if g is not None and g.rec == f.rec and g.name in MUTATOR_NAMES and g.name != f.name:
+                sib.append(g)
+        elif st["k"] in CALLS and callee_fq(st) not in ("std::move", "std::forward") and st.get("callee", {}).get("inrepo"):
+            return None
+    return sib[0] if len(sib) == 1 else None
